@@ -29,7 +29,7 @@ CM = 'xdoctest.checker._check_match'
 
 
 def run(ctx):
-    for fn in (r1_only_under_flag, r2_exact_without_marker, r3_bounds_reach_scan, r4_split_pattern, r4b_regex_gaps_span_newlines, r5_verdict_sources, r6_flag_read_is_current, r7_run_state_is_forwarded, r8_got_want_roles):
+    for fn in (r1_only_under_flag, r2_exact_without_marker, r3_bounds_reach_scan, r4_split_pattern, r4b_regex_gaps_span_newlines, r5_verdict_sources, r6_flag_read_is_current, r7_run_state_is_forwarded, r8_got_want_roles, r9_failures_return_false):
         ctx.rep.rule(fn, ctx)
 
 
@@ -360,11 +360,67 @@ def r8_got_want_roles(ctx):
     c05.r12_got_want_roles(ctx, rule='C06.R8')
 
 
+def r9_failures_return_false(ctx):
+    """FAILURE-VERDICT in the wildcard matcher: each comparison that can fail -- the anchored prefix (startswith), the anchored suffix (endswith), a
+    middle piece that is not found (find(...) < 0), the anchors overlapping -- leads straight to `return False`; and the prefix / suffix comparison
+    is made whenever that piece is non-empty (it is never placed under "the piece is empty")"""
+    rep = ctx.rep
+    f = ctx.func(EM)
+    g = ctx.cfg(f)
+    rd = ctx.rd(f)
+    dom = ctx.dom(g, g.entry)
+    got = f.node.args.args[0].arg
+    fails = []          # (test node, failing polarity, what)
+    for n in g.nodes:
+        if n.kind != 'test' or n.dup:
+            continue
+        e = n.ast
+        neg = False
+        while isinstance(e, ast.UnaryOp) and isinstance(e.op, ast.Not):
+            e, neg = e.operand, not neg
+        if isinstance(e, ast.Call) and isinstance(e.func, ast.Attribute) and e.func.attr in ('startswith', 'endswith') and is_name(e.func.value, got):
+            fails.append((n, neg, 'anchored %s %s' % ('prefix' if e.func.attr == 'startswith' else 'suffix', ctx.src(e)), e))
+        elif isinstance(e, ast.Compare) and len(e.ops) == 1 and isinstance(e.left, ast.Name) and isinstance(e.comparators[0], ast.Constant) and e.comparators[0].value in (0, -1):
+            defs = rd.at(n, e.left.id)
+            if any(isinstance(d.value, ast.Call) and isinstance(d.value.func, ast.Attribute) and d.value.func.attr in ('find', 'rfind') for d in defs):
+                op, c0 = type(e.ops[0]), e.comparators[0].value
+                failing = {(ast.Lt, 0): True, (ast.Eq, -1): True, (ast.GtE, 0): False, (ast.NotEq, -1): False, (ast.LtE, -1): True, (ast.Gt, -1): False}.get((op, c0))
+                need(failing is not None, 'C06.R9: test of a search result not recognised: %s' % ctx.src(e))
+                fails.append((n, failing != neg, 'piece not found (%s)' % ctx.src(e), e))
+    rep.floor('C06.R9', 'comparisons that can fail in the wildcard matcher', len(fails), 3)
+    for (n, pol, what, e) in fails:
+        bs = [b for b in n.nsucc() if b.kind == 'branch' and b.attrs['polarity'] is pol]
+        need(bs, 'C06.R9: failing branch of %s not found' % what)
+        rets = []
+        falls = False
+        for x in graph.reachable(bs, efilter=graph.normal_only, stop=[y for y in g.nodes if y.kind == 'stmt' and isinstance(y.ast, ast.Return)]):
+            if x.kind == 'stmt' and isinstance(x.ast, ast.Return):
+                rets.append(x)
+        ok = bool(rets) and all(isinstance(r_.ast.value, ast.Constant) and r_.ast.value.value is False for r_ in rets)
+        # the failing branch must not be able to reach another comparison first (i.e. the failure is final)
+        later = [t for t in graph.reachable(bs, efilter=graph.normal_only, stop=[y for y in g.nodes if y.kind == 'stmt' and isinstance(y.ast, ast.Return)]) if t.kind == 'test' and t is not n]
+        rep.ob('C06.R9', ctx.loc(f, e), what, ok and not later,
+               'a failed comparison returns False at once' if ok and not later else
+               'when this comparison fails the matcher %s: a got that lacks the piece is still accepted' %
+               ('goes on' if later else 'can return %s' % sorted({ctx.src(r_.ast) for r_ in rets})), anchor=EM)
+        if isinstance(e, ast.Call):
+            arg = e.args[0] if e.args else None
+            facts = graph.guard_facts(dom, n)
+            under_empty = [fa for fa in facts if isinstance(arg, ast.Name) and ((is_name(fa.expr, arg.id) and fa.polarity is False))]
+            rep.ob('C06.R9', ctx.loc(f, e), '%s is compared whenever it is non-empty' % ctx.src(arg) if arg is not None else what, not under_empty,
+                   'not placed under an "is empty" test' if not under_empty else
+                   'the anchored comparison is only made when `%s` is EMPTY (%s): a non-empty %s is never compared, so `a...b` matches `xb`' % (ctx.src(arg), fmt_facts(under_empty), 'prefix' if e.func.attr == 'startswith' else 'suffix'),
+                   anchor=EM)
+
+
 # ---------------------------------------------------------------------------
 from ..selftest import fire, silent      # noqa: E402
 
 CK = 'xdoctest/checker.py'
 VARIANTS = [
+    fire('prefix-compared-only-when-empty', 'C06.R9', (CK, "    w = ws[0]\n    if w:   # starts with exact match\n", "    w = ws[0]\n    if not w:   # starts with exact match\n")),
+    fire('missing-piece-accepted', 'C06.R9', (CK, "        if startpos < 0:\n            return False\n", "        if startpos < 0:\n            return True\n")),
+    fire('suffix-mismatch-ignored', 'C06.R9', (CK, "            del ws[-1]\n        else:\n            return False\n", "            del ws[-1]\n")),
     fire('scan-skips-the-first-middle-piece', 'C06.R3', (CK, "    for w in ws:\n", "    for w in ws[1:]:\n")),
     fire('M3-scan-without-end-bound', 'C06.R3', (CK, "        startpos = got.find(w, startpos, endpos)\n", "        startpos = got.find(w, startpos)\n")),
     fire('scan-from-zero', 'C06.R3', (CK, "        startpos = got.find(w, startpos, endpos)\n", "        startpos = got.find(w, 0, endpos)\n")),
